@@ -58,6 +58,9 @@ class Check(HCheck):
             al.rmprefix(Aw),
             al.delete(0),
             al.rule(A, "path2"),
+            # a prefix whose last stem is empty (b"|" alone), with a page below it
+            al.create(A + b"|"),
+            al.page(A + b"|p:a|", True),
         ]
         d = 4 if thorough else 3
         # sibling pages whose stems share their first 74 bytes (order decided in the tail blocks)
@@ -144,6 +147,11 @@ class Check(HCheck):
                                 ctx.count("multi_prefix_chains")
                         if sorted(acc) != refset:
                             ctx.fail("page-set", "paging webentity %r (prefixes %s, page size %r, crawled_only=%s) returned %s; the webentity holds %s" % (wid, _pl(order), k, co, _sh(acc), _sh(refset)))
+                            return
+                        # anchored outside the pagination code: the pages that resolve to the webentity
+                        truth = sorted((x, g.crawled[x]) for x in g.members.get(wid, []) if g.crawled[x] or not co)
+                        if sorted(acc) != truth:
+                            ctx.fail("page-set-vs-resolution", "paging webentity %r (prefixes %s, page size %r, crawled_only=%s) returned %s; the indexed pages resolving to it are %s" % (wid, _pl(order), k, co, _sh(sorted(acc)), _sh(truth)))
                             return
                         if [x for x, _ in acc] != expected:
                             ctx.fail("order", "paging webentity %r (prefixes %s, page size %r) is not prefix by prefix in the given order, ascending within a prefix: %s" % (wid, _pl(order), k, [L.show(x) for x, _ in acc]))
